@@ -1,6 +1,7 @@
 package main
 
 import (
+	"compress/gzip"
 	"bytes"
 	"context"
 	"encoding/json"
@@ -8,6 +9,7 @@ import (
 	"fmt"
 	"io"
 	"math/rand"
+	"net"
 	"net/http"
 	"net/http/httptest"
 	"strings"
@@ -130,10 +132,19 @@ func traceHTTP(o opts) error {
 			return err
 		}
 		var cur *whoSpec
+		adminWho := &whoSpec{node: "admin.ts.net", login: "admin@example.com", cap1: "rules", cap2: "none",
+			rules1: acl.Rules{{Action: allActs, Secret: []acl.Secret{"*"}}}}
 		mux := http.NewServeMux()
 		ctx, cancel := context.WithCancel(context.Background())
 		_, err = server.New(ctx, server.Config{DB: w.d, Mux: mux,
-			WhoIs: func(context.Context, string) (*apitype.WhoIsResponse, error) { return cur.answer() }})
+			WhoIs: func(_ context.Context, asked string) (*apitype.WhoIsResponse, error) {
+				// the tailnet answers about the address it is asked about: the peer the request came
+				// from is `cur`; 100.64.0.1 is the administrator's node (every action on every name)
+				if strings.HasPrefix(asked, "100.64.0.1:") || asked == "100.64.0.1" {
+					return adminWho.answer()
+				}
+				return cur.answer()
+			}})
 		if err != nil {
 			cancel()
 			return err
@@ -213,6 +224,15 @@ func traceHTTP(o opts) error {
 			addr := "100.64.0.7:4242"
 			if r.Intn(20) == 0 {
 				addr = "garbage"
+			}
+			// headers a client (or a proxy in front of the server) may add: the caller is whoever the
+			// connection comes from, whatever these say - also when it comes from the same host
+			fwd := ""
+			if r.Intn(6) == 0 {
+				fwd = pick(r, []string{"100.64.0.1", "100.64.0.1, 10.0.0.2", "100.64.0.1:4242"})
+				if r.Intn(2) == 0 && addr != "garbage" {
+					addr = pick(r, []string{"127.0.0.1:5555", "[::1]:5555"})
+				}
 			}
 			op := w.genOp(r, sh, "seq")
 			ep := map[string]string{"list": "list", "info": "info", "get": "get", "getcond": "get", "getver": "get",
@@ -330,6 +350,19 @@ func traceHTTP(o opts) error {
 				status = resp.StatusCode
 				rbody, _ = io.ReadAll(resp.Body)
 				resp.Body = io.NopCloser(bytes.NewReader(rbody))
+				if via == "client" && strings.Contains(strings.ToLower(req.Header.Get("Accept-Encoding")), "gzip") {
+					// a compressing proxy in front of the server does what HTTP lets it do: a client that
+					// announces it accepts gzip is sent gzip (net/http undoes that only when it added the
+					// header itself, below this hook)
+					var zb bytes.Buffer
+					zw := gzip.NewWriter(&zb)
+					zw.Write(rbody)
+					zw.Close()
+					resp.Body = io.NopCloser(bytes.NewReader(zb.Bytes()))
+					resp.Header.Set("Content-Encoding", "gzip")
+					resp.Header.Del("Content-Length")
+					resp.ContentLength = int64(zb.Len())
+				}
 				return resp, nil
 			}
 			if via == "client" {
@@ -373,6 +406,11 @@ func traceHTTP(o opts) error {
 				if nb != "" {
 					req.Header.Set("Sec-X-Tailscale-No-Browsers", nb)
 				}
+				if fwd != "" {
+					req.Header.Set("X-Forwarded-For", fwd)
+					req.Header.Set("X-Real-Ip", strings.Split(fwd, ",")[0])
+					req.Header.Set("Forwarded", "for="+strings.Split(fwd, ",")[0])
+				}
 				do(req)
 			}
 			if hung {
@@ -400,7 +438,7 @@ func traceHTTP(o opts) error {
 				disk = "ERR:" + hx(err.Error())
 			}
 			emit("http\tm=%s\tct=%s\tnb=%s\taddrok=%s\taddr=%s\twhofail=%s\ttags=%s\tlogin=%s\tnode=%s\tcap1=%s\tcap2=%s\tep=%s\tbodyok=%s\tn=%s\tv=%d\tuic=%s\tval=%s\tvia=%s\tstatus=%d\trbody=%s\tres=%s\tcli=%s\tent=%s\tpre=%s\tmem=%s\tdisk=%s\tgen=%d%s",
-				hx(method), hx(ct), hx(nb), b01(addr != "garbage"), hx(strings.Split(addr, ":")[0]), b01(ws.fails), joinHexX(ws.tags), hx(ws.login), hx(ws.node),
+				hx(method), hx(ct), hx(nb), b01(addr != "garbage"), hx(hostOf(addr)), b01(ws.fails), joinHexX(ws.tags), hx(ws.login), hx(ws.node),
 				encCap(ws.cap1, ws.rules1), encCap(ws.cap2, ws.rules2), ep, b01(bodyOK), hx(fn), fv, b01(fuic), hb(fval), via,
 				status, hb(rbody), res, cli, ent, pre, mem, disk, w.d.WriteGen(), creqField(via, creq))
 		}
@@ -408,6 +446,14 @@ func traceHTTP(o opts) error {
 		w.close()
 	}
 	return nil
+}
+
+// hostOf: the address part of a peer address ("::1" for "[::1]:5555")
+func hostOf(addr string) string {
+	if h, _, err := net.SplitHostPort(addr); err == nil {
+		return h
+	}
+	return strings.Split(addr, ":")[0]
 }
 
 func joinHexX(xs []string) string {
